@@ -700,7 +700,12 @@ orc_parse_handle_constant_str (OrcParser *parser, const OrcLine *line)
 
   size = strtol (line->tokens[1], NULL, 0);
 
-  orc_program_add_constant_str (parser->program, size, line->tokens[3], line->tokens[2]);
+  if (orc_program_add_constant_str (parser->program, size, line->tokens[3],
+        line->tokens[2]) < 0) {
+    orc_parse_add_error (parser, "bad constant value \"%s\" for %s",
+        line->tokens[3], line->tokens[2]);
+    return 0;
+  }
 
   return 1;
 }
